@@ -115,10 +115,130 @@ fn target_table() -> Vec<(&'static str, TargetFn, bool)> {
     ]
 }
 
+// typed positions below the root: merges inside struct fields, sequence items, map values, enum
+// payloads (externally / internally tagged, untagged), flattened structs and tuples
+#[derive(Debug, Deserialize)]
+#[allow(dead_code)]
+enum Ext {
+    St {
+        #[serde(default)]
+        k1: Option<Val>,
+        #[serde(default)]
+        k2: Option<Val>,
+        #[serde(default)]
+        k3: Option<Val>,
+        #[serde(default)]
+        k4: Option<Val>,
+    },
+    Nt(Wide),
+}
+
+#[derive(Debug, Deserialize)]
+#[serde(tag = "t")]
+#[allow(dead_code)]
+enum Int {
+    A {
+        #[serde(default)]
+        k1: Option<Val>,
+        #[serde(default)]
+        k2: Option<Val>,
+        #[serde(default)]
+        k3: Option<Val>,
+        #[serde(default)]
+        k4: Option<Val>,
+    },
+    B {
+        #[serde(default)]
+        k1: Option<Val>,
+    },
+}
+
+#[derive(Debug, Deserialize)]
+#[allow(dead_code)]
+struct Flat {
+    #[serde(default)]
+    k1: Option<Val>,
+    #[serde(flatten)]
+    rest: BTreeMap<String, Val>,
+}
+
+#[derive(Debug, Deserialize)]
+#[serde(untagged)]
+#[allow(dead_code)]
+enum Unt {
+    W(WideStrict),
+    Other(Val),
+}
+
+#[derive(Debug, Deserialize)]
+#[allow(dead_code)]
+struct Outer {
+    #[serde(default)]
+    b: Vec<Val>,
+    #[serde(default)]
+    items: Vec<Wide>,
+    #[serde(default)]
+    inner: Option<WideStrict>,
+    #[serde(default)]
+    byname: BTreeMap<String, Wide>,
+    #[serde(default)]
+    e: Option<Ext>,
+    #[serde(default)]
+    nt: Option<Ext>,
+    #[serde(default)]
+    it: Option<Int>,
+    #[serde(default)]
+    flat: Option<Flat>,
+    #[serde(default)]
+    un: Option<Unt>,
+    #[serde(default)]
+    tup: Option<(Wide, Val)>,
+}
+
+fn typed_table() -> Vec<(&'static str, TargetFn, bool)> {
+    let v = |n: &str| targets::by_name(n).unwrap().from_str;
+    vec![("Outer", local::<Outer> as TargetFn, true), ("Val", v("Val"), false), ("json", v("json"), false)]
+}
+
+/// The mapping `spec` placed at typed position `pos` of `Outer` (fresh tokens for every copy).
+fn typed_position(pos: usize, spec: &[Ent]) -> Vec<Ent> {
+    let m = || Src::Map(spec.to_vec());
+    match pos {
+        0 => vec![Ent::OwnMap("items", Src::Seq(vec![m(), m()]))],
+        1 => vec![Ent::OwnMap("inner", m())],
+        2 => vec![Ent::OwnMap("byname", Src::Map(vec![Ent::OwnMap("x", m()), Ent::OwnMap("y", m())]))],
+        3 => vec![Ent::OwnMap("e", Src::Map(vec![Ent::OwnMap("St", m())]))],
+        4 => vec![Ent::OwnMap("nt", Src::Map(vec![Ent::OwnMap("Nt", m())]))],
+        5 => {
+            let mut e = vec![Ent::Fixed("t", "A")];
+            e.extend(spec.to_vec());
+            vec![Ent::OwnMap("it", Src::Map(e))]
+        }
+        6 => {
+            // the enum tag itself arrives through a merge
+            let mut e = spec.to_vec();
+            e.push(Ent::Merge(Src::Map(vec![Ent::Fixed("t", "A")])));
+            vec![Ent::OwnMap("it", Src::Map(e))]
+        }
+        7 => vec![Ent::OwnMap("flat", m())],
+        8 => vec![Ent::OwnMap("un", m())],
+        _ => vec![Ent::OwnMap("tup", Src::Seq(vec![m(), Src::Scalar("z", Style::Plain)]))],
+    }
+}
+const N_TYPED_POS: usize = 10;
+
 const POLICY_NAMES: [&str; 3] = ["Error", "FirstWins", "LastWins"];
 
-fn opts(policy: usize) -> serde_saphyr::Options {
-    let mut o = vcore::errs::unlimited_options();
+const OPTVEC_NAMES: [&str; 4] = [
+    "limits-off",
+    "limits-off+no_schema+strict_booleans+legacy_octal+ignore_binary_tag",
+    "limits-off+no-snippet+angle_conversions",
+    "Options::default() (default budget and alias limits; the documents stay far inside them)",
+];
+
+/// Option vector `vec` with the duplicate-key policy set. Both sides of every relation get the same vector.
+fn opts(policy: usize, vec: usize) -> serde_saphyr::Options {
+    let mut o = if vec == 3 { serde_saphyr::Options::default() } else { vcore::errs::unlimited_options() };
     #[allow(deprecated)]
     {
         o.duplicate_keys = match policy {
@@ -126,6 +246,19 @@ fn opts(policy: usize) -> serde_saphyr::Options {
             2 => serde_saphyr::DuplicateKeyPolicy::LastWins,
             _ => serde_saphyr::DuplicateKeyPolicy::Error,
         };
+        match vec {
+            1 => {
+                o.no_schema = true;
+                o.strict_booleans = true;
+                o.legacy_octal_numbers = true;
+                o.ignore_binary_tag_for_string = true;
+            }
+            2 => {
+                o.with_snippet = false;
+                o.angle_conversions = true;
+            }
+            _ => {}
+        }
     }
     o
 }
@@ -385,6 +518,7 @@ fn mismatch_class(target: &str, a: &Outcome, b: &Outcome) -> &'static str {
 }
 
 struct Sel<'a> {
+    optvec: usize,
     policies: &'a [usize],
     targets: &'a [(&'static str, TargetFn, bool)],
 }
@@ -425,8 +559,8 @@ fn check_doc(run: &Run, doc: &str, flow: bool, sel: &Sel, class: &str) {
                     continue;
                 }
                 run.eval();
-                let case = || json!({"kind": "doc", "doc": doc, "flow": flow, "class": class, "policy": POLICY_NAMES[p], "target": tn});
-                match vcore::obs::catch(|| f(doc, opts(p))) {
+                let case = || json!({"kind": "doc", "doc": doc, "flow": flow, "class": class, "policy": POLICY_NAMES[p], "optvec": sel.optvec, "target": tn});
+                match vcore::obs::catch(|| f(doc, opts(p, sel.optvec))) {
                     Err(pn) => report(run, &format!("C03:panic:{}", vcore::obs::panic_site(&pn)), case(), pn),
                     Ok(Ok(v)) => report(run, 
                         "C03:invalid-merge-value-accepted",
@@ -436,7 +570,7 @@ fn check_doc(run: &Run, doc: &str, flow: bool, sel: &Sel, class: &str) {
                     Ok(Err(e)) => {
                         acc::observe(run, "must_fail_error_kinds", &vcore::errs::kind(&e));
                         acc::count("must_fail_held", 1);
-                        run.nontrivial(fnv_parts(&[doc.as_bytes(), tn.as_bytes(), &[p as u8]]));
+                        run.nontrivial(fnv_parts(&[doc.as_bytes(), tn.as_bytes(), &[p as u8, sel.optvec as u8]]));
                     }
                 }
             }
@@ -466,9 +600,9 @@ fn check_doc(run: &Run, doc: &str, flow: bool, sel: &Sel, class: &str) {
     for &p in sel.policies {
         for (tn, f, _) in sel.targets {
             run.evals(2);
-            let case = || json!({"kind": "doc", "doc": doc, "written_out": mdoc, "flow": flow, "class": class, "policy": POLICY_NAMES[p], "target": tn});
-            let ra = vcore::obs::catch(|| f(doc, opts(p)));
-            let rb = vcore::obs::catch(|| f(&mdoc, opts(p)));
+            let case = || json!({"kind": "doc", "doc": doc, "written_out": mdoc, "flow": flow, "class": class, "policy": POLICY_NAMES[p], "optvec": sel.optvec, "target": tn});
+            let ra = vcore::obs::catch(|| f(doc, opts(p, sel.optvec)));
+            let rb = vcore::obs::catch(|| f(&mdoc, opts(p, sel.optvec)));
             let (a, b) = match (ra, rb) {
                 (Err(pn), _) | (_, Err(pn)) => {
                     report(run, &format!("C03:panic:{}", vcore::obs::panic_site(&pn)), case(), pn);
@@ -481,7 +615,7 @@ fn check_doc(run: &Run, doc: &str, flow: bool, sel: &Sel, class: &str) {
                 report(run, &sig, case(), format!("[{} {}] with merge keys: {} | written out: {}", POLICY_NAMES[p], tn, show(&a), show(&b)));
             } else {
                 if nontrivial {
-                    run.nontrivial(fnv_parts(&[doc.as_bytes(), tn.as_bytes(), &[p as u8]]));
+                    run.nontrivial(fnv_parts(&[doc.as_bytes(), tn.as_bytes(), &[p as u8, sel.optvec as u8]]));
                 }
                 match &a {
                     Ok(_) => acc::count("both_ok", 1),
@@ -523,10 +657,10 @@ fn check_ordinary(run: &Run, doc: &str, renamed: &str, policies: &[usize]) {
         let case = || json!({"kind": "ordinary", "doc": doc, "renamed": renamed, "policy": POLICY_NAMES[p]});
         let r = vcore::obs::catch(|| {
             (
-                serde_saphyr::from_str_with_options::<Val>(doc, opts(p)),
-                serde_saphyr::from_str_with_options::<Val>(renamed, opts(p)),
-                serde_saphyr::from_str_with_options::<BTreeMap<String, Val>>(doc, opts(p)),
-                serde_saphyr::from_str_with_options::<BTreeMap<String, Val>>(renamed, opts(p)),
+                serde_saphyr::from_str_with_options::<Val>(doc, opts(p, 0)),
+                serde_saphyr::from_str_with_options::<Val>(renamed, opts(p, 0)),
+                serde_saphyr::from_str_with_options::<BTreeMap<String, Val>>(doc, opts(p, 0)),
+                serde_saphyr::from_str_with_options::<BTreeMap<String, Val>>(renamed, opts(p, 0)),
             )
         });
         let (a, b, c, d) = match r {
@@ -599,6 +733,8 @@ enum Src {
     Seq(Vec<Src>),
     /// a scalar written as is (null spellings, and the must-fail scalars)
     Scalar(&'static str, Style),
+    /// any node, as is
+    Raw(Node),
 }
 
 #[derive(Clone, Debug)]
@@ -611,6 +747,8 @@ enum Ent {
     Merge(Src),
     /// ordinary-looking key with an arbitrary key node and a Src value
     Keyed(Node, Src),
+    /// own entry with a fixed plain value (enum tags)
+    Fixed(&'static str, &'static str),
 }
 
 fn key_node(code: &str) -> Node {
@@ -725,6 +863,7 @@ impl Builder {
             }
             Src::Seq(items) => Node::seq(items.iter().map(|i| self.src(i, pre)).collect()),
             Src::Scalar(t, st) => Node::styled(t, *st),
+            Src::Raw(n) => n.clone(),
         }
     }
     fn mark_used(&mut self, i: usize, pre: &[(&'static str, Src)]) {
@@ -735,9 +874,9 @@ impl Builder {
                     Src::Seq(v) => v.iter().for_each(|x| deps(x, out)),
                     Src::Map(e) => e.iter().for_each(|x| match x {
                         Ent::Merge(s) | Ent::OwnMap(_, s) | Ent::Keyed(_, s) => deps(s, out),
-                        Ent::Own(_) => {}
+                        Ent::Own(_) | Ent::Fixed(..) => {}
                     }),
-                    Src::Scalar(..) => {}
+                    Src::Scalar(..) | Src::Raw(_) => {}
                 }
             }
             let mut d = Vec::new();
@@ -767,6 +906,7 @@ impl Builder {
                     let v = self.src(s, pre);
                     out.push((k.clone(), v));
                 }
+                Ent::Fixed(k, v) => out.push((Node::plain(k), Node::plain(v))),
             }
         }
         out
@@ -803,7 +943,7 @@ fn check_node(run: &Run, n: &Node, sel: &Sel, class: &str, layouts: &[bool], sam
             t.set_flow(true);
         }
         let Some((doc, _)) = render_checked(&t, &ro) else {
-            run.inconclusive("generator-invalid: document not parsed as intended");
+            run.inconclusive(&format!("generator-invalid: {class} document not parsed as intended ({})", if flow { "flow" } else { "block" }));
             continue;
         };
         acc::count(if flow { "docs_flow" } else { "docs_block" }, 1);
@@ -873,7 +1013,7 @@ struct Gen<'r> {
     bad_budget: usize,
 }
 
-const KEYS: [&str; 6] = ["k1", "k2", "k3", "k4", "k5", "a"];
+const KEYS: [&str; 8] = ["k1", "k2", "k3", "k4", "k5", "a", "k6", "k7"];
 
 impl Gen<'_> {
     fn tok(&mut self) -> Node {
@@ -897,7 +1037,8 @@ impl Gen<'_> {
     }
     /// A mapping with own entries and merge entries. Returns (node, has own duplicates).
     fn gen_map(&mut self, depth: usize, is_source: bool) -> (Node, bool) {
-        let n = self.rng.range(if is_source { 1 } else { 0 }, 5);
+        let hi = if self.rng.chance(1, 6) { 7 } else { 5 };
+        let n = self.rng.range(if is_source { 1 } else { 0 }, hi);
         let mut pool: Vec<&str> = KEYS.to_vec();
         self.rng.shuffle(&mut pool);
         let mut used: Vec<&str> = Vec::new();
@@ -1006,7 +1147,7 @@ impl Gen<'_> {
 
 fn random_doc(rng: &mut Rng) -> (Node, bool) {
     let bad = rng.chance(1, 16);
-    let depth = rng.range(1, 3);
+    let depth = if rng.chance(1, 8) { 4 } else { rng.range(1, 3) };
     let mut g = Gen {
         rng,
         c: 0,
@@ -1071,7 +1212,7 @@ fn main() {
                 Some(t) => table.iter().filter(|x| x.0 == t).cloned().collect(),
                 None => table.clone(),
             };
-            let sel = Sel { policies: &pol, targets: &tsel };
+            let sel = Sel { optvec: case["optvec"].as_u64().unwrap_or(0) as usize, policies: &pol, targets: &tsel };
             check_doc(&run, &doc, case["flow"].as_bool().unwrap_or(false), &sel, "replay");
         }
         acc::flush(&run);
@@ -1079,10 +1220,10 @@ fn main() {
     }
 
     let tier = run.tier;
-    let sel_all = Sel { policies: &all_policies, targets: &table };
+    let sel_all = Sel { optvec: 0, policies: &all_policies, targets: &table };
     let both = [false, true];
 
-    // ---- 1. exhaustive: <= 3 own keys x <= 3 merge entries x value shapes x interleavings
+    // ---- 1. exhaustive: <= 3 own keys x <= 3 (thorough: 4) merge entries x value shapes x interleavings
     let alpha = alphabet();
     let small = alphabet_small();
     let owns: [&[&'static str]; 4] = [&[], &["k1"], &["k1", "k2"], &["k1", "k2", "k3"]];
@@ -1095,10 +1236,18 @@ fn main() {
     cases.extend(sequences(&["k3", "k1"], 1, &[&alpha[..]]));
     cases.extend(sequences(&["k2", "k1"], 2, &[&alpha[..], &alpha[..]]));
     let n_le2 = cases.len();
-    let third: &[Src] = tier.pick(&small[..], &alpha[..]);
-    let own3: &[&[&'static str]] = tier.pick(&owns[..3], &owns[..]);
-    for own in own3.iter() {
-        cases.extend(sequences(own, 3, &[&alpha[..], tier.pick(&small[..], &alpha[..]), third]));
+    if tier == Tier::Quick {
+        for own in owns[..3].iter() {
+            cases.extend(sequences(own, 3, &[&alpha[..], &alpha[..], &small[..]]));
+        }
+        cases.extend(sequences(owns[3], 3, &[&small[..], &small[..], &small[..]]));
+    } else {
+        for own in owns.iter() {
+            cases.extend(sequences(own, 3, &[&alpha[..], &alpha[..], &alpha[..]]));
+        }
+        for own in owns.iter() {
+            cases.extend(sequences(own, 4, &[&small[..], &small[..], &small[..], &small[..]]));
+        }
     }
     let debug_limit: Option<usize> = std::env::var("C03_LIMIT").ok().and_then(|l| l.parse().ok());
     if let Some(l) = debug_limit {
@@ -1110,11 +1259,21 @@ fn main() {
             i % step == 0
         });
     }
+    let n_le2 = n_le2.min(cases.len());
     acc::count("exhaustive_entry_sequences", cases.len() as u64);
     acc::count("exhaustive_entry_sequences_le2_merges", n_le2 as u64);
+    // sequences with <= 2 merge entries run under every option vector, the longer ones under vector (index mod 4)
     par_range(cases.len(), |i| {
         let n = build_doc(&cases[i]);
-        check_node(&run, &n, &sel_all, "exhaustive", &both, i % 4001 == 0);
+        if i < n_le2 && debug_limit.is_none() {
+            for ov in 0..4 {
+                let sel = Sel { optvec: ov, policies: &all_policies, targets: &table };
+                check_node(&run, &n, &sel, "exhaustive", &both, ov == 0 && i % 4001 == 0);
+            }
+        } else {
+            let sel = Sel { optvec: i % 4, policies: &all_policies, targets: &table };
+            check_node(&run, &n, &sel, "exhaustive", &both, i % 40_009 == 0);
+        }
     });
 
     // ---- 2. own duplicates next to merges (Error: both fail; First/LastWins: compared as usual)
@@ -1204,6 +1363,13 @@ fn main() {
             Alias(7),
             Alias(8),
             Seq(vec![Alias(0), Alias(6)]),
+            Src::Raw(Node::plain("x").with_tag("!!str")),
+            Src::Raw(Node::plain("5").with_tag("!!int")),
+            Src::Raw(Node::plain("1.5")),
+            Src::Raw(Node::styled("x\n", Style::Literal)),
+            Src::Raw(Node::styled("x y\n", Style::Folded)),
+            Seq(vec![km(&["k1"]), Src::Raw(Node::styled("x\n", Style::Literal))]),
+            Seq(vec![Src::Raw(Node::dq("x").with_tag("!!str")), km(&["k1"])]),
             // unspecified: null inside a sequence
             Seq(vec![sc("~", Style::Plain)]),
             Seq(vec![km(&["k1"]), sc("null", Style::Plain)]),
@@ -1301,30 +1467,275 @@ fn main() {
         acc::count("ordinary_key_docs", n_ord);
     }
 
-    // ---- 8. seeded random documents
-    let n_random = if debug_limit.is_some() { 4000 } else { tier.pick(60_000, 1_500_000) };
+    // ---- 8. typed positions: the same small mappings inside struct fields, sequence items, map values,
+    //         enum payloads (external / internal tag, also with the tag arriving through a merge / untagged),
+    //         a flattened struct and a tuple
+    {
+        let ttable = typed_table();
+        let mut specs: Vec<Vec<Ent>> = Vec::new();
+        let a2: &[Src] = tier.pick(&small[..], &alpha[..]);
+        for own in owns[..3].iter() {
+            specs.extend(sequences(own, 1, &[&alpha[..]]));
+            specs.extend(sequences(own, 2, &[a2, a2]));
+        }
+        if let Some(l) = debug_limit {
+            let step = (specs.len() / l.min(specs.len()).max(1)).max(1);
+            let mut i = 0;
+            specs.retain(|_| {
+                i += 1;
+                i % step == 0
+            });
+        }
+        acc::count("typed_position_mapping_specs", specs.len() as u64);
+        par_range(specs.len() * N_TYPED_POS, |j| {
+            let (i, pos) = (j / N_TYPED_POS, j % N_TYPED_POS);
+            let n = build_doc(&typed_position(pos, &specs[i]));
+            let sel = Sel { optvec: j % 4, policies: &all_policies, targets: &ttable };
+            check_node(&run, &n, &sel, "typed-position", &both, j % 7919 == 0);
+        });
+    }
+
+    // ---- 9. merge chains: sources that contain merges, to depth D (anchored c1 <- c2 <- ... or inline nesting)
+    {
+        let keysets: [&[&str]; 4] = [&["k1"], &["k2"], &["k1", "k2"], &["k3"]];
+        // level = (keyset, merge entry written before the own keys?)
+        let chain_doc = |levels: &[(usize, bool)], inline: bool, tail: usize| -> Node {
+            let mut c = 0usize;
+            let mut tok = || {
+                c += 1;
+                Node::plain(&format!("v{c}"))
+            };
+            let d = levels.len();
+            let level_entries = |i: usize, prev: Option<Node>, tok: &mut dyn FnMut() -> Node| -> Vec<(Node, Node)> {
+                let (ks, first) = levels[i];
+                let mut own: Vec<(Node, Node)> = keysets[ks].iter().map(|k| (Node::plain(k), tok())).collect();
+                if let Some(p) = prev {
+                    if first {
+                        own.insert(0, (Node::plain("<<"), p));
+                    } else {
+                        own.push((Node::plain("<<"), p));
+                    }
+                }
+                own
+            };
+            let mut entries: Vec<(Node, Node)> = Vec::new();
+            let top: Node;
+            if inline {
+                let mut cur: Option<Node> = None;
+                for i in 0..d {
+                    let e = level_entries(i, cur.take(), &mut tok);
+                    cur = Some(Node::map(e));
+                }
+                top = cur.unwrap();
+            } else {
+                let mut defs = Vec::new();
+                for i in 0..d {
+                    let prev = if i == 0 { None } else { Some(Node::alias(&format!("c{i}"))) };
+                    let e = level_entries(i, prev, &mut tok);
+                    defs.push(Node::map(e).with_anchor(&format!("c{}", i + 1)));
+                }
+                entries.push((Node::plain("b"), Node::seq(defs)));
+                top = Node::alias(&format!("c{d}"));
+            }
+            match tail {
+                0 => entries.push((Node::plain("<<"), top)),
+                1 => {
+                    entries.push((Node::plain("k1"), tok()));
+                    entries.push((Node::plain("<<"), top));
+                    entries.push((Node::plain("k4"), tok()));
+                }
+                2 => {
+                    let other = if inline { Node::map(vec![(Node::plain("k1"), tok()), (Node::plain("k4"), tok())]) } else { Node::alias("c1") };
+                    entries.push((Node::plain("<<"), Node::seq(vec![top, other])));
+                }
+                _ => {
+                    let other = if inline { Node::map(vec![(Node::plain("k2"), tok()), (Node::plain("k4"), tok())]) } else { Node::alias("c1") };
+                    entries.push((Node::plain("<<"), other));
+                    entries.push((Node::plain("<<"), top));
+                }
+            }
+            Node::map(entries)
+        };
+        let max_d = tier.pick(3, 4);
+        let mut chains: Vec<Vec<(usize, bool)>> = Vec::new();
+        for d in 1..=max_d {
+            let mut idx = vec![0usize; d];
+            loop {
+                chains.push(idx.iter().map(|x| (x / 2, x % 2 == 0)).collect());
+                let mut k = 0;
+                while k < d {
+                    idx[k] += 1;
+                    if idx[k] < 8 {
+                        break;
+                    }
+                    idx[k] = 0;
+                    k += 1;
+                }
+                if k == d {
+                    break;
+                }
+            }
+        }
+        if debug_limit.is_some() {
+            chains.truncate(300);
+        }
+        acc::count("chain_level_vectors", chains.len() as u64);
+        par_range(chains.len() * 8, |j| {
+            let (i, inline, tail) = (j / 8, j % 2 == 1, (j / 2) % 4);
+            let n = chain_doc(&chains[i], inline, tail);
+            let sel = Sel { optvec: j % 4, policies: &all_policies, targets: &table };
+            check_node(&run, &n, &sel, "chain", &both, j % 9001 == 0);
+        });
+        // deeper chains, sampled
+        let n_deep = if debug_limit.is_some() { 200 } else { tier.pick(3000, 40_000) };
+        par_range(n_deep, |i| {
+            let mut rng = Rng::stream(run.seed ^ 0xC4A1, i as u64);
+            let d = rng.range(5, 12);
+            let levels: Vec<(usize, bool)> = (0..d).map(|_| (rng.below(4), rng.bool())).collect();
+            let n = chain_doc(&levels, rng.chance(1, 3), rng.below(4));
+            let pol = [rng.below(3)];
+            let sel = Sel { optvec: rng.below(4), policies: &pol, targets: &table };
+            acc::count("deep_chain_docs", 1);
+            check_node(&run, &n, &sel, "deep-chain", &[rng.chance(1, 3)], i % 997 == 0);
+        });
+    }
+
+    // ---- 10. what the merged entries carry: container / deep / large / aliased values, anchors defined inside a
+    //          merge source and used after it, contributed as well as overridden
+    {
+        const NV: usize = 11;
+        let shape = |v: usize, tag: &str, c: &mut usize| -> (Node, Option<String>) {
+            let mut tok = || {
+                *c += 1;
+                Node::plain(&format!("v{c}"))
+            };
+            match v {
+                0 => (tok(), None),
+                1 => (Node::seq(vec![tok(), tok()]), None),
+                2 => (Node::seq(vec![Node::seq(vec![tok()]), Node::map(vec![(Node::plain("x"), tok())])]), None),
+                3 => {
+                    let a = format!("x{tag}");
+                    (Node::seq(vec![tok()]).with_anchor(&a), Some(a))
+                }
+                4 => {
+                    let a = format!("y{tag}");
+                    (Node::map(vec![(Node::plain("x"), tok())]).with_anchor(&a), Some(a))
+                }
+                5 => (Node::alias("pre"), None),
+                6 => (Node::seq((0..tier.pick(300, 2000)).map(|_| tok()).collect()), None),
+                7 => {
+                    let mut cur = tok();
+                    for i in 0..30 {
+                        cur = if i % 2 == 0 { Node::seq(vec![cur]) } else { Node::map(vec![(Node::plain("d"), cur)]) };
+                    }
+                    (cur, None)
+                }
+                8 => (Node::map(vec![]), None),
+                9 => (Node::plain("~"), None),
+                _ => (Node::dq(""), None),
+            }
+        };
+        par_range(NV * NV * 9, |j| {
+            let (v1, v2, coll, style) = (j % NV, (j / NV) % NV, (j / (NV * NV)) % 3, j / (NV * NV * 3));
+            let mut c = 0usize;
+            let (n1, a1) = shape(v1, "1", &mut c);
+            let (n2, a2) = shape(v2, "2", &mut c);
+            let src = Node::map(vec![(Node::plain("k1"), n1), (Node::plain("k2"), n2)]);
+            let mut defs = vec![Node::seq(vec![Node::plain("p1"), Node::plain("p2")]).with_anchor("pre")];
+            let merge_value = match style {
+                0 => src,
+                1 => {
+                    defs.push(src.with_anchor("m"));
+                    Node::alias("m")
+                }
+                _ => {
+                    defs.push(src.with_anchor("m"));
+                    Node::seq(vec![Node::map(vec![(Node::plain("k2"), Node::plain("w0")), (Node::plain("k3"), Node::plain("w1"))]), Node::alias("m")])
+                }
+            };
+            let mut e = vec![(Node::plain("b"), Node::seq(defs))];
+            if coll == 1 {
+                e.push((Node::plain("k1"), Node::plain("own1")));
+            }
+            e.push((Node::plain("<<"), merge_value));
+            if coll == 2 {
+                e.push((Node::plain("k1"), Node::plain("own1")));
+            }
+            // anchors defined inside the source are used after it
+            for (i, a) in [a1, a2].into_iter().flatten().enumerate() {
+                e.push((Node::plain(if i == 0 { "k4" } else { "k5" }), Node::alias(&a)));
+            }
+            let n = Node::map(e);
+            let sel = Sel { optvec: j % 4, policies: &all_policies, targets: &table };
+            acc::count("merged_value_shape_docs", 1);
+            check_node(&run, &n, &sel, "merged-value-shape", &both, j % 211 == 0);
+        });
+    }
+
+    // ---- 11. scalar keys of every resolution (int / float / bool / null / empty / spaced / non-ASCII), plain and
+    //          quoted, own versus merged: identity is text + tag, whatever the scalar resolves to
+    {
+        let texts = ["1", "1.0", "true", "~", "null", "", "a b", "é", "0x1", "k1"];
+        let spell = |t: &str, q: usize| -> Option<Node> {
+            match q {
+                0 => {
+                    if vcore::ydoc::plain_safe(t) || t == "~" {
+                        Some(Node::plain(t))
+                    } else {
+                        None
+                    }
+                }
+                1 => Some(Node::dq(t)),
+                _ => Some(Node::sq(t)),
+            }
+        };
+        let n_t = texts.len();
+        par_range(n_t * 3 * n_t * 3 * 2, |j| {
+            let (t1, q1, t2, q2, order) = (j % n_t, (j / n_t) % 3, (j / (n_t * 3)) % n_t, (j / (n_t * 3 * n_t)) % 3, j / (n_t * 3 * n_t * 3));
+            let (Some(own), Some(merged)) = (spell(texts[t1], q1), spell(texts[t2], q2)) else { return };
+            let src = Node::map(vec![(merged, Node::plain("v1")), (Node::plain("k2"), Node::plain("v2"))]);
+            let mut e = Vec::new();
+            if order == 0 {
+                e.push((own, Node::plain("v0")));
+                e.push((Node::plain("<<"), src));
+            } else {
+                e.push((Node::plain("<<"), src));
+                e.push((own, Node::plain("v0")));
+            }
+            let n = Node::map(e);
+            let sel = Sel { optvec: j % 4, policies: &all_policies, targets: &table };
+            acc::count("scalar_key_variety_docs", 1);
+            check_node(&run, &n, &sel, "scalar-key-variety", &both, j % 173 == 0);
+        });
+    }
+
+    // ---- 12. seeded random documents
+    let n_random = if debug_limit.is_some() { 4000 } else { tier.pick(250_000, 5_000_000) };
     par_range(n_random, |i| {
         let mut rng = Rng::stream(run.seed, i as u64);
         let (n, flow) = random_doc(&mut rng);
         let pol = [rng.below(3)];
-        let sel = Sel { policies: if i % 4 == 0 { &all_policies } else { &pol }, targets: &table };
+        let sel = Sel { optvec: rng.below(4), policies: if i % 4 == 0 { &all_policies } else { &pol }, targets: &table };
         acc::count("random_docs", 1);
         check_node(&run, &n, &sel, "random", &[flow], i % 9973 == 0);
     });
 
     let scope = format!(
-        "root mappings with own keys k1..ko (o<=3, in order; plus 2 reversed-order variants) and m merge entries in every interleaving, merge values from a {}-shape alphabet (inline map, alias to map, null, empty map/seq, seq of maps/aliases, nested seq, alias to seq, nested merges up to 3 levels): all of o<=3 x m<=2; m=3 with {} x {{block, flow}} x 3 policies x 7 targets; plus the own-duplicate, key-spelling, nested-position, must-fail and ordinary-key families listed in the counters",
+        "(1) root mappings with own keys k1..ko (in order; plus 2 reversed-order variants) and m merge entries in every interleaving, merge values from a {}-shape alphabet A (inline map, alias to map, null, empty map/seq, seq of maps/aliases, nested seq, alias to seq, nested merges up to 3 levels) or its 10-shape subset S: o<=3 x m<=2 over A under each of 4 option vectors; {}; the longer sequences under option vector (index mod 4). (2) own-duplicate patterns x m<=2. (3) 6 key spellings own x merged. (4) merges below the root. (5) must-fail values x 9 positions. (7) quoted/tagged `<<` x 6 values x 5 contexts. (8) every o<=2 x m<=2 mapping (2nd/3rd value from {}) at 10 typed positions of a derived struct. (9) merge chains of depth <= {} (4 key sets x merge-first/last per level) x inline/anchored x 4 ways of using the chain. (10) 11 x 11 merged value shapes x 3 collision patterns x 3 source styles. (11) 10 scalar key texts x 3 styles, own x merged x 2 orders. Everything x {{block, flow}} x 3 policies x all targets of the family",
         alpha.len(),
-        if tier == Tier::Quick { "o<=2 and the 2nd/3rd entry from the 10-shape reduced alphabet" } else { "o<=3 and the full alphabet in every position" },
+        if tier == Tier::Quick { "m=3: o<=2 over A x A x S and o=3 over S x S x S" } else { "m=3: o<=3 over A x A x A; m=4: o<=3 over S^4" },
+        if tier == Tier::Quick { "S" } else { "A" },
+        tier.pick(3, 4),
     );
     let fin = Finish::new(
-        "a case (document, policy, target) is non-trivial when, by the reference rule applied to the raw parser tree, >= 1 merge source entry was contributed or was overridden by a key already present — or it is a must-fail merge value, or a quoted/tagged `<<` case; distinct by hash(doc, target, policy)",
+        "a case (document, policy, target) is non-trivial when, by the reference rule applied to the raw parser tree, >= 1 merge source entry was contributed or was overridden by a key already present — or it is a must-fail merge value, or a quoted/tagged `<<` case; distinct by hash(doc, target, policy, option vector)",
     )
     .exhaustive(scope)
     .assume("raw saphyr-parser event stream is the ground truth for what a document means (the written-out document is computed from it and re-confirmed by it)")
-    .assume("budget and alias limits switched off: max_merge_keys belongs to C07")
+    .assume(format!("option vectors crossed in (both sides of a relation always get the same one): {}", OPTVEC_NAMES.join(" | ")))
+    .assume("budget and alias limits switched off in three of the four vectors (max_merge_keys belongs to C07); the fourth is Options::default(), with documents far inside every default limit")
     .assume("no verdict (counted as unspecified/*): null inside a merge sequence, repeated keys inside a merge source, tagged containers as source or key, `<<` inside a key, invalid merge value next to own duplicates")
-    .min_nontrivial(if tier == Tier::Quick { 20_000 } else { 200_000 });
+    .min_nontrivial(if tier == Tier::Quick { 100_000 } else { 1_000_000 });
     acc::flush(&run);
     run.finish(fin);
 }
